@@ -174,6 +174,10 @@ class CallMixin:
                     if self.path.decide(t == -1):
                         return None
                     return MapElem(base.map_ref, t, old=base.old)
+                flag = getattr(cell, "optional", {}).get(name)
+                if flag is not None and getattr(self, "spec_depth", 0) == 0 and getattr(self, "pure_depth", 0) == 0:
+                    if not self.path.decide(z3.Select(cell.fields[flag][1], base.key)):
+                        return None       # the code sees None; contracts read value and flag as two fields
                 return Sym(kind, t)
             if name == "__class__":
                 return cell.refcls
